@@ -180,6 +180,25 @@ def run(model, col, tier):
             break
     else:
         col.bad("R09.5", f"{TYPES}::ResolveBinaryExpressionType DIV guard is on the DIV path", "no rejecting path has (operation == DIV, right operand not scalar)", TYPES, rb)
+    # ---------------- R09.6 identical shapes on the component-wise tail ------------------
+    # (+ - % && ||): an accepting path either established `left == right` or builds its types with
+    # _GetCommonPrimitiveType(left, right), which asserts equal sizes (R09.2)
+    ntail = 0
+    for evs, status in paths(rb.body):
+        if status != "return":
+            continue
+        taken = [unparse(e.node) for e in evs if e.kind == "cond" and e.val]
+        if any("IsComparison" in t_ or "Operation.MUL" in t_ or "Operation.DIV" in t_ for t_ in taken):
+            continue
+        ntail += 1
+        atoms = cond_atoms(evs)
+        eq = atoms.get("left == right") is True or atoms.get("right == left") is True
+        common = any(last_attr(c) == "_GetCommonPrimitiveType" and [unparse(a) for a in c.args] in (["left", "right"], ["right", "left"]) for c in calls_on_path(evs))
+        rv = evs[-1].node
+        col.check(eq or common, "R09.6", f"{TYPES}::ResolveBinaryExpressionType component-wise tail `{' '.join(unparse(rv).split())[:50]}`",
+                  "the operands are equal types, or the common type is built by _GetCommonPrimitiveType (asserts identical shape)",
+                  f"the accepting path under {[t_[:50] for t_ in taken]} neither requires `left == right` nor builds the common type of (left, right): two vectors or matrices of different shape are accepted", TYPES, rv)
+    col.floor("R09.6", "accepting paths of the component-wise tail", ntail, 2)
     grc = model.func(TYPES, "_GetRowsColumns")
     t = " ".join(unparse(grc).split())
     t = t.replace("(", "").replace(")", "")
